@@ -50,6 +50,12 @@ def build_designspace(family, lib="ufoLib2"):
         ds.addRule(rd)
     for k, v in (family.get("lib") or {}).items():
         ds.lib[k] = v
+    for vf in family.get("variableFonts", []):
+        from fontTools.designspaceLib import RangeAxisSubsetDescriptor, VariableFontDescriptor
+
+        d = VariableFontDescriptor(name=vf["name"], axisSubsets=[RangeAxisSubsetDescriptor(name=a["name"]) for a in family["axes"]])
+        d.lib = dict(vf.get("lib") or {})
+        ds.addVariableFont(d)
     return ds
 
 
